@@ -99,6 +99,42 @@ class Timedelta:
     def __init__(self, ns):
         self.ns = ns
 
+    def sym_compare(self, interp, op, l, r, node):
+        if isinstance(l, Timedelta) and isinstance(r, Timedelta):
+            return interp.compare(op, l.ns, r.ns, node)
+        raise Unsupported("comparison of a Timedelta with a non-Timedelta", node)
+
+    def sym_getattr(self, interp, name, node):
+        if name == "total_seconds":
+            return _TdCall(lambda: (self.ns / 1e9) if isinstance(self.ns, (int, float)) else z3.ToReal(self.ns) / 1e9 if z3.is_int(self.ns) else self.ns / 1e9)
+        if name == "days":
+            if isinstance(self.ns, int):
+                return self.ns // (86400 * 10 ** 9)
+        raise Unsupported(f"Timedelta.{name}", node)
+
+
+class _TdCall:
+    def __init__(self, f):
+        self.f = f
+
+    def sym_call(self, interp, args, kwargs, node, frame):
+        return self.f()
+
+
+_TD_UNITS = {"ns": 1, "us": 10 ** 3, "ms": 10 ** 6, "s": 10 ** 9, "sec": 10 ** 9, "min": 60 * 10 ** 9, "t": 60 * 10 ** 9, "h": 3600 * 10 ** 9, "hr": 3600 * 10 ** 9,
+             "hour": 3600 * 10 ** 9, "hours": 3600 * 10 ** 9, "d": 86400 * 10 ** 9, "day": 86400 * 10 ** 9, "days": 86400 * 10 ** 9, "minutes": 60 * 10 ** 9,
+             "minute": 60 * 10 ** 9, "seconds": 10 ** 9, "second": 10 ** 9}
+
+
+def parse_timedelta(text):
+    import re
+    m = re.fullmatch(r"\s*(\d+(?:\.\d+)?)?\s*([A-Za-z]+)\s*", text)
+    if not m or m.group(2).lower() not in _TD_UNITS:
+        return None
+    n = float(m.group(1)) if m.group(1) else 1.0
+    ns = n * _TD_UNITS[m.group(2).lower()]
+    return int(ns) if ns == int(ns) else None
+
     def sym_binop(self, interp, op, l, r, node):
         if isinstance(l, Timestamp) or isinstance(r, Timestamp):
             return Timestamp.sym_binop(l if isinstance(l, Timestamp) else r, interp, op, l, r, node)
@@ -325,6 +361,26 @@ def install():
         if d is None:
             raise SymRaise("TypeError", "timedelta(days=None)", node, ("TypeError", "Exception"))
         return Timedelta(to_z3(d) * DAY)
+
+    @libmodels.lib("pandas.Timedelta")
+    def _pd_timedelta(interp, args, kwargs, node, frame):
+        if args and isinstance(args[0], str) and not kwargs:
+            ns = parse_timedelta(args[0])
+            if ns is None:
+                raise Unsupported(f"pd.Timedelta({args[0]!r})", node)
+            return Timedelta(ns)
+        if args and (isinstance(args[0], (int, float)) or z3.is_expr(args[0])) and set(kwargs) <= {"unit"}:
+            unit = str(kwargs.get("unit", "ns")).lower()
+            if unit not in _TD_UNITS:
+                raise Unsupported(f"pd.Timedelta unit {unit!r}", node)
+            v = args[0]
+            return Timedelta(v * _TD_UNITS[unit] if isinstance(v, (int, float)) else to_z3(v) * _TD_UNITS[unit])
+        if not args and kwargs and set(kwargs) <= set(_TD_UNITS):
+            tot = 0
+            for k, v in kwargs.items():
+                tot = tot + (v * _TD_UNITS[k] if isinstance(v, (int, float)) else to_z3(v) * _TD_UNITS[k])
+            return Timedelta(tot)
+        raise Unsupported("pd.Timedelta with these arguments", node)
 
     @libmodels.lib("pytz.UTC.localize")
     def _localize(interp, args, kwargs, node, frame):
